@@ -206,6 +206,13 @@ class Interp(Engine):
                     n = z3.Length(seq)
                     new = z3.Concat(z3.SubSeq(seq, 0, lo), z3.SubSeq(seq, hi, n - hi))
                     self.set_list(obj, new)
+                elif isinstance(obj, SV) and parse_tag(obj.ty)[0] == "dict":
+                    # del d[k]: KeyError when absent
+                    m = self.dict_of(obj)
+                    key = self.to_term(self.ev(t.slice), node)
+                    if not self.branch(m[key] != Val.absent, "del present L%d" % node.lineno):
+                        self.raise_builtin("KeyError", node)
+                    self.set_dict(obj, z3.Store(m, key, Val.absent))
                 else:
                     self.unsupported(node, "del subscript")
             elif isinstance(t, ast.Attribute):
@@ -246,6 +253,12 @@ class Interp(Engine):
 
     def st_Assign(self, node):
         v = self.ev(node.value)
+        lt = getattr(self.current_contract, "local_tags", None) if len(self.st.frames) == 1 else None
+        if lt and isinstance(v, SV) and len(node.targets) == 1 and isinstance(node.targets[0], ast.Name) and node.targets[0].id in lt \
+                and v.ty in ("list", "dict", "set", None, "any"):
+            if v.ty in (None, "any"):
+                self.assume_typed(v.term, lt[node.targets[0].id])      # a value of unknown type: the tag is an assumption about it
+            v = SV(v.term, lt[node.targets[0].id])      # trusted typing of a local container, from the contract
         for t in node.targets:
             self.assign(t, v, node)
 
@@ -497,6 +510,9 @@ class Interp(Engine):
         self.assume(z3.ForAll([i], z3.Implies(z3.And(0 <= i, i < n), m[seq[i]] != Val.absent)))
         self.assume(z3.ForAll([i, j], z3.Implies(z3.And(0 <= i, i < j, j < n), seq[i] != seq[j])))
         self.assume(z3.ForAll([x], z3.Implies(m[x] != Val.absent, z3.Contains(seq, z3.Unit(x)))))
+        # the same fact with an explicit witness: a present key sits at position dict_pos(m, key) of the order
+        p = so.dict_pos(m, x)
+        self.assume(z3.ForAll([x], z3.Implies(m[x] != Val.absent, z3.And(0 <= p, p < n, seq[p] == x)), patterns=[m[x]]))
 
     def loop_spec(self, node):
         f = self.frame.func
@@ -636,6 +652,9 @@ class Interp(Engine):
             if seq is not None:
                 fr.locals["_seq"] = PSeq(seq, elem)
                 fr.locals["_seq%d" % ordinal] = fr.locals["_seq"]
+            elif isinstance(zipv, EnumV):
+                fr.locals["_seq"] = PSeq(zipv.base, zipv.elem)
+                fr.locals["_seq%d" % ordinal] = fr.locals["_seq"]
 
         def run_body_once():
             # used by discovery: one arbitrary iteration
@@ -658,6 +677,7 @@ class Interp(Engine):
         ws = self.discover_written(node, run_body_once)
         invs = [parse_expr(s) for s in spec.get("invariant", [])]
         # 1. invariant on entry
+        self.entry_by_ord[ordinal] = dict(self.st.heap)      # state at loop entry, for at_entry(k, e)
         if is_for:
             bind_ghost(z3.IntVal(0))
         for k, inv in enumerate(invs):
@@ -689,7 +709,11 @@ class Interp(Engine):
             self.assume(z3.And(0 <= i, i <= seqlen()))
             bind_ghost(i)
         for inv in invs:
-            self.assume(self.spec_bool(inv))
+            self._assuming = True
+            try:
+                self.assume(self.spec_bool(inv))
+            finally:
+                self._assuming = False
         # 3. iterate or exit
         if is_for:
             go = self.branch(i < seqlen(), "loop%d L%d" % (ordinal, node.lineno))
@@ -1531,6 +1555,18 @@ class ZipV(Value):
 
     def item(self, eng, i):
         return TupV([eng.from_term(s[i], t) for s, t in self.parts])
+
+
+class EnumV(ZipV):
+    """enumerate(xs): pairs (index, element)"""
+    def __init__(self, seq, elem, start=0):
+        self.parts = [(seq, elem)]
+        self.base = seq
+        self.elem = elem
+        self.start = start
+
+    def item(self, eng, i):
+        return TupV([SV(Val.intv(i + self.start), "int"), eng.from_term(self.base[i], self.elem)])
 
 
 def _load(target):
